@@ -32,6 +32,8 @@ func runC07(c *Ctx) {
 	c07R1R2(c, p)
 	c07Insert(c, p)
 	c07R3R4(c, p)
+	// a line is only legal from the root if the search leaves the board as it found it
+	rulePairs(c, p, "C07.R5")
 }
 
 // varargValues returns the values packed into the variadic slice argument v.
